@@ -16,6 +16,24 @@ let () = iter_lines (fun line ->
     | ["catb"; nul; a; len; n; ok] -> let r = catb (mk nul a len) (zeros (min (int_of_string n) 5000)) (zs n) (ok = "1") in show r.r_ok r.r_sa
     | ["copyb"; nul; a; len; n; ok] -> let r = copyb (mk nul a len) (zeros (min (int_of_string n) 5000)) (zs n) (ok = "1") in show r.r_ok r.r_sa
     | ["append"; nul; a; len; ok] -> let r = append (mk nul a len) N0 (ok = "1") in show r.r_ok r.r_sa
+    | ["out"; cap; scr; ops] ->
+        (* substdio output side (Mem/Substdio.v): script k<n>|i|e, ops p<hex>|b<hex>|f|P<hex> -> "<ok> <accepted hex> <bytes waiting> <all copies inside 1|0>" *)
+        let split s = if s = "-" then [] else String.split_on_char ',' s in
+        let num s = int_of_string (String.sub s 1 (String.length s - 1)) in
+        let hexarg s = let h = String.sub s 1 (String.length s - 1) in bytes_of_hex (if h = "" then "-" else h) in
+        let w = function s when s.[0] = 'i' -> WIntr | s when s.[0] = 'e' -> WErr | s -> WOk (nat_of_int (num s)) in
+        let o = function s when s.[0] = 'p' -> OPut (hexarg s) | s when s.[0] = 'b' -> OBput (hexarg s) | s when s.[0] = 'f' -> OFlush | s -> OPutflush (hexarg s) in
+        let c = int_of_string cap in
+        let (ok, b) = o_run (o_init (nat_of_int c) (List.map w (split scr))) (List.map o (split ops)) in
+        b01 ok ^ " " ^ hex_of_bytes b.o_out ^ " " ^ string_of_int (List.length b.o_pend) ^ " " ^
+        b01 (List.for_all (fun (lo, n) -> int_of_nat lo + int_of_nat n <= c) b.o_copies)
+    | ["in"; cap; scr; sep; src] ->
+        let split s = if s = "-" then [] else String.split_on_char ',' s in
+        let num s = int_of_string (String.sub s 1 (String.length s - 1)) in
+        let r = function s when s.[0] = 'i' -> RIntr | s when s.[0] = 'e' -> RErr | s -> RChunk (nat_of_int (num s)) in
+        let sb = bytes_of_hex src in
+        let (ls, ok) = getlns_all (nat_of_int (List.length sb + 2)) (i_init (nat_of_int (int_of_string cap)) sb (List.map r (split scr))) (List.hd (bytes_of_hex sep)) in
+        (if ls = [] then "-" else String.concat "," (List.map (fun (l, m) -> hex_of_bytes l ^ ":" ^ b01 m) ls)) ^ " " ^ b01 ok
     | ["dns"; kind; want; resp] ->
         (* the record walk of dns.c on one response: "S" (resolve: DNS_SOFT) | "<results e.g. KGKS>;<largest index read or -1>;<nreads>"
            K = skipped (0), G = got (1), S = DNS_SOFT, E = end (2); dn_expand = the simple-name stand-in *)
